@@ -37,6 +37,18 @@ def gen_jobs(seed, n):
             if ok:
                 c['fl'][rng.choice(ok)] |= 128
         jobs.append(dict(index=i, case=c, top=rng.random() < 0.5))
+    # a worker that dies at once next to a quick task, more work queued, task monitor ON: the quick task's result ends
+    # the first wait, starting the queued work reaps the dead process, and only then does the monitor sample for the
+    # first time (a pid that no longer exists); unrelated tasks must still run and be returned
+    li = n + 2
+    for be in ('fork', 'spawn'):
+        for f in (3, 1, 2):     # the dying task's number selects SIGKILL / exit(0) / exit(1)
+            others = [t for t in (1, 2, 3, 4) if t != f] + [0]
+            jobs.append(dict(index=li, top=True, lonely=True, case=dict(
+                be=be, mw=2, cof=1, bust=0, ty=[0] * 5, mp=[None, None, None], ca=[1, 1, 1],
+                fl=[2 if t == f else 0 for t in range(5)], kids=[[] for _ in range(5)], shapes=[[] for _ in range(5)],
+                inst=[[t, []] for t in range(5)], req=[f] + others, pre={}, ctx=0, sched=[])))
+            li += 1
     # very many tasks in one run (queues, counters and displays are exercised far beyond a handful of tasks):
     # WIDE_N independent tasks of two types on really forked workers, displays off and on
     for j, top in enumerate((False, True)):
@@ -198,6 +210,8 @@ def explore(seed, n, workers=12, timeout=300):
         dist[key] = dist.get(key, 0) + 1
         if any(f & 2 for f in case['fl']) and case['be'] != 'serial':
             dist['real_killed_worker'] = dist.get('real_killed_worker', 0) + 1
+        if by[r['index']].get('lonely'):
+            dist['real_dying_worker_reaped_before_first_monitor_sample'] = dist.get('real_dying_worker_reaped_before_first_monitor_sample', 0) + 1
         if by[r['index']].get('wide'):
             dist['real_run_of_%d_tasks' % len(case['ty'])] = 1
         if any(f & 128 for f in case['fl']):
